@@ -25,6 +25,7 @@ import ICal.Driver.BodiesParse
 import ICal.Driver.BodiesAlarmTimes
 import ICal.Driver.BodiesSerLines
 import ICal.Driver.BodiesSEFull
+import ICal.Driver.BodiesSEDesc
 import ICal.Driver.BodiesDDD
 import ICal.Driver.BodiesRecur
 import ICal.Driver.BodiesAdd
@@ -33,7 +34,7 @@ import ICal.Driver.BodiesCDictSort
 import ICal.Driver.BodiesTz
 open ICal.Driver
 
-def handlers : List (String → List String → Option String) := [handleText, handleFold, handleLine, handleTree, handleStartEnd, handleCodec, handleCDict, handleWalk, handleTz, handleAlarm, handleRecur, handleEncode, handleZoned, handleBodies, handleBodiesParser, handleBodiesLine, handleBodiesFold, handleBodiesText, handleBodiesAlarm, handleBodiesWalk, handleBodiesSer, handleBodiesCDict, handleBodiesSE, handleBodiesParse, handleBodiesAlarmTimes, handleBodiesSerLines, handleBodiesSEFull, handleBodiesDDD, handleBodiesRecur, handleBodiesAdd, handleBodiesTzUse, handleBodiesCDictSort, handleBodiesTz]
+def handlers : List (String → List String → Option String) := [handleText, handleFold, handleLine, handleTree, handleStartEnd, handleCodec, handleCDict, handleWalk, handleTz, handleAlarm, handleRecur, handleEncode, handleZoned, handleBodies, handleBodiesParser, handleBodiesLine, handleBodiesFold, handleBodiesText, handleBodiesAlarm, handleBodiesWalk, handleBodiesSer, handleBodiesCDict, handleBodiesSE, handleBodiesParse, handleBodiesAlarmTimes, handleBodiesSerLines, handleBodiesSEFull, handleBodiesDDD, handleBodiesRecur, handleBodiesAdd, handleBodiesTzUse, handleBodiesCDictSort, handleBodiesTz, handleBodiesSEDesc]
 
 def step (line : String) : String :=
   let l := line.dropRightWhile (fun c => c == (Char.ofNat 10) || c == (Char.ofNat 13))
